@@ -56,6 +56,10 @@ structure Opts where
   recvExtras : List Val := []
   packetExtras : List Val := []
   chunkSizes : List Nat := []           -- lengths of the leading chunks; the rest is the last chunk
+  /-- for negative tests: an explicit chunk plan (chunks with their final flags),
+      overriding the cut of the plaintext — lets a key-holding hostile sender emit
+      packets that are cryptographically consistent but violate the chunk rules -/
+  explicitPlan : Option (List (Bytes × Bool)) := none
   deriving Inhabited
 
 /-- cut `pt` at the given sizes; what remains is the last chunk (possibly empty
@@ -67,6 +71,9 @@ def cut : List Nat → Bytes → List Bytes
 /-- V2 plan: the chunks, last one final.  V1 plan: the (non-empty) chunks, then
     the empty final chunk. -/
 def plan (layout : Nat) (o : Opts) (pt : Bytes) : List (Bytes × Bool) :=
+  match o.explicitPlan with
+  | some pl => pl
+  | none =>
   let cs := cut o.chunkSizes pt
   if layout = 1 then (cs.filter (fun c => !c.isEmpty)).map (·, false) ++ [([], true)]
   else cs.dropLast.map (·, false) ++ [(cs.getLast?.getD [], true)]
